@@ -582,6 +582,9 @@ func (ctx *crashCtx) checkImage(k int, cut map[int]int, power bool, pos2 int) {
 	if clockBack {
 		where += "; the wall clock was stepped back to the start of that operation while the process was down"
 	}
+	if otherCfg {
+		where += "; reopened under " + cfg.String()
+	}
 	if rec.oracle == "infra" {
 		r.Infra = rec.failure
 		return
